@@ -59,10 +59,11 @@ func (h *c17h) monitorOp(f []string, obs string, pre *c17snap, preDigest string)
 	post := h.snap()
 	ok := obs == "ok"
 	isMsg := h.msgOf(f) != nil
+	isGov := f[0] == "mig" || f[0] == "ualias" || f[0] == "setp"
 
 	// rejected message: nothing may change (A-atomic is what baseapp gives; the handlers' own partial
 	// writes are discarded by the cache context — checked here on the dymns store and all balances)
-	if isMsg && !ok {
+	if (isMsg || isGov) && !ok {
 		if d := h.f.StoreDigest(dymnstypes.StoreKey); d != preDigest {
 			h.violate("C17/atomic/rejected-op-changed-dymns-store", strings.Join(f, " ")+" => "+obs)
 		}
@@ -90,7 +91,105 @@ func (h *c17h) monitorOp(f []string, obs string, pre *c17snap, preDigest string)
 	} else if isMsg {
 		h.branchesRejected(f, obs, pre)
 	}
+	if isGov {
+		h.monitorGov(f, obs, pre, post)
+	}
 	h.monitorReverseComplete(post)
+	h.monitorForwardComplete(post)
+}
+
+// monitorGov: the governance paths change no balance, no order, no owner; a chain-id migration
+// changes nothing of a record but the chain-ids of its address records (never from or to the empty
+// chain-id) and leaves expired names alone.  (That the reverse indexes are still the image of the
+// records afterwards — although the migration skips the Before/After config hooks — is what
+// monitorIndexes checks on the whole store after every op.)
+func (h *c17h) monitorGov(f []string, obs string, pre, post *c17snap) {
+	line := strings.Join(f, " ")
+	h.r.Hit("gov-" + f[0] + "-" + strings.SplitN(obs, ":", 2)[0])
+	for i := range pre.bal {
+		if !pre.bal[i].Equal(post.bal[i]) {
+			h.violate("C17/escrow_inv/governance-op-changed-a-balance", line)
+		}
+	}
+	if !pre.mod.Equal(post.mod) || len(pre.nameSO) != len(post.nameSO) || len(pre.alSO) != len(post.alSO) || len(pre.bos) != len(post.bos) {
+		h.violate("C17/escrow_inv/governance-op-changed-the-escrow", line)
+	}
+	if len(pre.names) != len(post.names) {
+		h.violate("C17/owner_auth/governance-op-created-or-deleted-a-record", line)
+	}
+	for i, d := range pre.names {
+		q, ok := post.names[i]
+		if !ok {
+			continue
+		}
+		same := q.Owner == d.Owner && q.Controller == d.Controller && q.ExpireAt == d.ExpireAt && q.Contact == d.Contact && len(q.Configs) == len(d.Configs)
+		changed := false
+		if same {
+			for k := range d.Configs {
+				a, b := d.Configs[k], q.Configs[k]
+				if a.Path != b.Path || a.Value != b.Value || a.Type != b.Type || (a.ChainId == "") != (b.ChainId == "") {
+					same = false
+				}
+				changed = changed || a.ChainId != b.ChainId
+			}
+		}
+		if !same || (changed && f[0] != "mig") {
+			h.violate("C17/owner_auth/governance-op-changed-more-than-chain-ids", fmt.Sprintf("%s: n%d", line, i))
+		}
+		if changed {
+			h.r.Hit("migration-rewrites-a-record")
+			if pre.expired(d) {
+				h.violate("C17/owner_auth/migration-rewrote-an-expired-name", fmt.Sprintf("%s: n%d", line, i))
+			}
+			for _, c := range q.Configs {
+				if c.ChainId == c17Chain(0) {
+					h.r.Hit("migration-stores-literal-host-chain-id")
+				}
+			}
+		} else if obs == "ok" && f[0] == "mig" && !pre.expired(d) {
+			for _, c := range d.Configs {
+				for _, p := range c17Pairs(f[1], ">") {
+					if c.ChainId == c17Chain(p[0]) {
+						h.r.Hit("migration-skips-record-that-would-fail-validation")
+					}
+				}
+			}
+		}
+	}
+}
+
+// every stored address record of a live name is what forward resolution of path.name@chain-id gives
+func (h *c17h) monitorForwardComplete(post *c17snap) {
+	for i, d := range post.names {
+		if post.expired(d) {
+			continue
+		}
+		for _, c := range d.Configs {
+			if c.Value == "" {
+				continue
+			}
+			chain := c.ChainId
+			if chain == "" {
+				chain = c17Chain(0)
+			}
+			text := c17Name(i) + "@" + chain
+			if c.Path != "" {
+				text = c.Path + "." + text
+			}
+			out, err := h.k.ResolveByDymNameAddress(h.ctx(), text)
+			if err == nil && out == c.Value {
+				continue
+			}
+			kind := "forward-misses-stored-record"
+			if c.ChainId == c17Chain(0) {
+				kind = "forward-misses-record-under-literal-host-chain-id"
+			}
+			tok := "c" + h.cfgChain(c.ChainId)
+			h.violate("C17/resolve_agree/"+kind,
+				fmt.Sprintf("n%d config %q|%q -> %s; %s resolves to %q (err %v)", i, c.ChainId, c.Path, c.Value, text, out, err),
+				fmt.Sprintf("res %s %d %s", h.pathID(c.Path), i, tok))
+		}
+	}
 }
 
 // escrow_inv: module balance = Σ highest bids of all sell orders + Σ offers of all buy orders
@@ -364,6 +463,18 @@ func (h *c17h) monitorOrders(f []string, obs string, pre, post *c17snap) {
 				h.violate("C17/sale_exact/completed-order-not-placed-by-current-owner",
 					fmt.Sprintf("%s: the order on %s was placed by %s; owner before the op a%s, ownership period %d", line, key, by, h.acct(owner), h.epoch[key]))
 			}
+		}
+		if changed && had && has && ok && op == "xferra" && key[0] == 'l' {
+			// the RollApp changed hands through x/rollapp's MsgTransferOwnership: its aliases and their
+			// open sell orders go with it (x/dymns runs no hook); from here on the order is the new
+			// owner's — he is the account IsRollAppCreator accepts and the one a completion pays
+			h.r.Hit("alias-sell-order-inherited-with-the-rollapp")
+			if preSO.HighestBid != nil {
+				h.r.Hit("alias-sell-order-with-bid-inherited-with-the-rollapp")
+			}
+			h.epoch[key]++
+			h.placed[key] = c17placed{h.ownerOf(post, key), h.epoch[key]}
+			continue
 		}
 		if changed && had && !through {
 			// the asset changed hands otherwise than through its order: the order is pruned
@@ -710,6 +821,13 @@ func (h *c17h) monitorQuery(f []string, obs, line string) {
 		}
 		// narrow the signature to the cause, so that a known finding cannot hide a different defect
 		wc := c17atoi(f[2])
+		if d := h.k.GetDymName(h.ctx(), c17Name(n)); d != nil && wc == 0 {
+			for _, c := range d.Configs {
+				if c.ChainId == c17Chain(0) && h.pathID(c.Path) == strconv.Itoa(path) && h.decodeAddr(c.Value) == f[1] {
+					kind = "from-record-under-literal-host-chain-id"
+				}
+			}
+		}
 		if d := h.k.GetDymName(h.ctx(), c17Name(n)); d != nil && wc != 0 && path == 0 {
 			explicit := false
 			for _, c := range d.Configs {
